@@ -76,6 +76,7 @@ func props() map[string]propSpec {
 
 func env() []string {
 	e := os.Environ()
+	e = append(e, "VERIF_REPO="+repoRoot())
 	e = append(e, "GOFLAGS=-mod=mod", "GOPROXY=off", "GOSUMDB=off", "GOTOOLCHAIN=local", "CGO_ENABLED=0")
 	return e
 }
@@ -226,6 +227,20 @@ func (b *builder) bin(harness, kind string, race bool) string {
 	ov := b.overlay(kind)
 	p := filepath.Join(b.scratch, strings.ReplaceAll(key, "/", "-"))
 	args := []string{"build", "-overlay", ov, "-o", p}
+	if rr := repoRoot(); rr != "/repo" {
+		// build against another checkout of the repository (scratch worktree): same module
+		// file with the replace directive pointing there
+		mf := filepath.Join(b.scratch, "alt.mod")
+		gm, err := os.ReadFile(filepath.Join(mcRoot, "go.mod"))
+		if err != nil {
+			die("%v", err)
+		}
+		os.WriteFile(mf, []byte(strings.ReplaceAll(string(gm), "=> /repo", "=> "+rr)), 0o644)
+		if gs, err := os.ReadFile(filepath.Join(mcRoot, "go.sum")); err == nil {
+			os.WriteFile(filepath.Join(b.scratch, "alt.sum"), gs, 0o644)
+		}
+		args = append(args, "-modfile="+mf)
+	}
 	if race {
 		args = append(args, "-race")
 	}
@@ -281,6 +296,48 @@ func runWorker(bin string, prop, tier string, e engine, shard, nshards int, outD
 	if rerr != nil {
 		lg, _ := os.ReadFile(out + ".log")
 		tail := string(lg)
+		// A panic in a goroutine of the code under test (not recoverable by the worker) kills the
+		// worker. If the panicking goroutine is inside nri's own packages, that is a finding.
+		if i := strings.Index(tail, "\npanic: "); i >= 0 || strings.HasPrefix(tail, "panic: ") {
+			if i < 0 {
+				i = 0
+			}
+			pan := tail[i:]
+			// the panic message, a blank line, then the stack of the panicking goroutine
+			stack := pan
+			if j := strings.Index(pan, "\n\ngoroutine "); j > 0 {
+				rest := pan[j+2:]
+				if k := strings.Index(rest, "\n\n"); k > 0 {
+					rest = rest[:k]
+				}
+				stack = pan[:j+2] + rest
+			}
+			first := ""
+			for _, ln := range strings.Split(stack, "\n") {
+				if strings.HasPrefix(ln, "github.com/containerd/nri/pkg/") && !strings.Contains(ln, "/zzverif/") {
+					first = ln
+					break
+				}
+			}
+			if first != "" {
+				fn := first
+				if k := strings.Index(fn, "("); k > 0 {
+					fn = fn[:k]
+				}
+				r := &rep.Result{Property: prop, Engine: e.Harness + "/" + e.Name}
+				r.Evaluations, r.States, r.Transitions, r.Distinct = 1, 1, 1, 2
+				var jr any
+				if j, jerr := os.ReadFile(out + ".journal"); jerr == nil {
+					json.Unmarshal(j, &jr)
+				}
+				if len(stack) > 3000 {
+					stack = stack[:3000]
+				}
+				r.Add(fmt.Sprintf("%s|%s|process-panic|%s", prop, e.Harness, strings.TrimPrefix(fn, "github.com/containerd/nri/")),
+					"the worker process was killed by a panic in a goroutine of the code under test:\n"+stack, jr)
+				return workerOut{res: r}
+			}
+		}
 		// The Go runtime's "out of memory" cannot be recovered inside the worker. If the worker
 		// journalled the execution it was running, the crash is a finding about that execution.
 		if j, jerr := os.ReadFile(out + ".journal"); jerr == nil && (strings.Contains(tail, "fatal error: out of memory") || strings.Contains(tail, "fatal error: runtime: out of memory")) {
